@@ -48,4 +48,13 @@ Deg(a, x) ==
        /\ CASE a.t = "leaf" -> x.v = a.v
             [] a.t = "obj"  -> x.k = a.k /\ \A i \in DOMAIN a.c : Deg(a.c[i], x.c[i])
             [] OTHER        -> Len(x.c) = Len(a.c) /\ \A i \in DOMAIN a.c : Deg(a.c[i], x.c[i])
+
+\* x is exactly the fault-free data a (used for the fault-free repetition of the operation on the same gateway)
+RECURSIVE Same(_, _)
+Same(a, x) ==
+  /\ x.t = a.t
+  /\ CASE a.t = "null" -> TRUE
+       [] a.t = "leaf" -> x.v = a.v
+       [] a.t = "obj"  -> x.k = a.k /\ \A i \in DOMAIN a.c : Same(a.c[i], x.c[i])
+       [] OTHER        -> Len(x.c) = Len(a.c) /\ \A i \in DOMAIN a.c : Same(a.c[i], x.c[i])
 =============================================================================
